@@ -141,6 +141,13 @@ Proof.
   unfold bits8, cell, kind_at, wf_at. intros H. injection H as -> -> -> -> -> -> -> ->. split; reflexivity.
 Qed.
 
+Lemma cell_bits8_eq b i p a e m h d c r : bits8 b i = [p; a; e; m; h; d; c; r] ->
+  cell b i = (if a then Some (p, if r then Rabbit else if e then Elephant else if m then Camel else if h then Horse else if d then Dog else Cat) else None) /\
+  wf_at b i = (Bool.eqb a (e || m || h || d || c || r) && Nat.leb (count_true [e; m; h; d; c; r]) 1 && implb p a).
+Proof.
+  unfold bits8, cell, kind_at, wf_at. intros H. injection H as <- <- <- <- <- <- <- <-. split; reflexivity.
+Qed.
+
 Lemma cell_none_bits b i : WFb b -> cell b i = None -> bits8 b i = [false; false; false; false; false; false; false; false].
 Proof.
   intros [_ W] H. specialize (W i). unfold cell in H. unfold wf_at in W. unfold bits8.
